@@ -298,6 +298,58 @@ pub fn run(ctx: &mut Ctx) -> (&'static str, String, bool) {
             json!({"declared": tracks.len(), "wire_forms": wire_to_variant.len(), "decodable": decodable.len()}),
         );
     }
+    // ---- a code that is not at the start of the field, or padded with something else than NUL, is no configuration ---
+    {
+        let mut p = Part::new();
+        for (name, t) in all_tracks() {
+            let code = guarded(|| t.code().to_string()).unwrap_or_default();
+            let cb = code.as_bytes();
+            if cb.is_empty() || cb.len() > 6 {
+                continue;
+            }
+            let canonical = wire_of(&code);
+            let mut cands: Vec<[u8; 6]> = vec![];
+            for shift in 1..=6 - cb.len() {
+                for fill in [0u8, b' '] {
+                    let mut w = [fill; 6];
+                    w[shift..shift + cb.len()].copy_from_slice(cb);
+                    // bytes behind the code stay NUL in one variant, take the fill in the other
+                    cands.push(w);
+                    let mut w2 = [0u8; 6];
+                    for x in w2.iter_mut().take(shift) {
+                        *x = fill;
+                    }
+                    w2[shift..shift + cb.len()].copy_from_slice(cb);
+                    cands.push(w2);
+                }
+            }
+            let mut sp = [b' '; 6];
+            sp[..cb.len()].copy_from_slice(cb);
+            cands.push(sp);
+            let mut lower = [0u8; 6];
+            lower[..cb.len()].copy_from_slice(code.to_ascii_lowercase().as_bytes());
+            cands.push(lower);
+            for w in cands {
+                if Some(w) == canonical {
+                    continue;
+                }
+                p.evaluations += 1;
+                p.distinct(&w);
+                if let Ok(Ok(back)) = guarded(|| decode(&w)) {
+                    // only a violation if it is not the canonical wire form of the configuration it decodes to
+                    let canon_of_back = guarded(|| encode(&back)).ok().and_then(|x| x.ok());
+                    if canon_of_back.as_deref() != Some(&w[..]) {
+                        p.violation(
+                            format!("C14/extra-decodable/{name}"),
+                            format!("{} (the code {code} shifted / padded / lower-cased) is not a wire form but decodes to {:?}", hex(&w), back),
+                            json!({"variant": name, "value": hex(&w)}),
+                        );
+                    }
+                }
+            }
+        }
+        ctx.merge(p);
+    }
     // ---- the same table inside the packets that carry a track (STA, RST, the relay host list): every configuration is
     //      recovered there, and six bytes that are no configuration make the packet an error there too --------------------
     if let Ok(c) = crate::corpus::Corpus::load() {
